@@ -37,10 +37,15 @@ type Obligation struct {
 type Exec struct {
 	W           *World
 	Prog        *Program
+	tailMode    bool // executing a duplicated tail (see dupTail)
+	tailCtr     map[string]int
+	tailParts   map[string][]*Obligation
+	tailOrder   []string
+	nbrCands    []*smt.Term // neighbours (k-1, k+1) of the current query's skolem indices
 	divFacts    map[[2]int]bool
 	bvLeaf      map[[2]int]*smt.Term // bit-vector constants standing for integer leaves of `bvtype` types
-	localFacts  []*smt.Term     // conditions of the enclosing ?: branches while a specification is evaluated
-	unsignedUF  map[string]bool // uninterpreted functions whose result has an unsigned Go type
+	localFacts  []*smt.Term          // conditions of the enclosing ?: branches while a specification is evaluated
+	unsignedUF  map[string]bool      // uninterpreted functions whose result has an unsigned Go type
 	atoms       map[int]bool
 	Fn          *ssa.Function
 	FC          *FuncContract
@@ -101,17 +106,18 @@ type recOpenT struct {
 }
 
 type Frame struct {
-	fn     *ssa.Function
-	vals   map[ssa.Value]Val
-	prefix string
-	defers []*ssa.Defer
-	fc     *FuncContract
-	pc     *PkgContracts
-	entry  *State
-	top    bool
-	loops  map[*ssa.BasicBlock]*loopInfo
-	free   []Val
-	rets   []retInfo
+	fn        *ssa.Function
+	vals      map[ssa.Value]Val
+	prefix    string
+	defers    []*ssa.Defer
+	deferCond map[*ssa.Defer]*smt.Term // path condition under which each defer statement was reached
+	fc        *FuncContract
+	pc        *PkgContracts
+	entry     *State
+	top       bool
+	loops     map[*ssa.BasicBlock]*loopInfo
+	free      []Val
+	rets      []retInfo
 	// per-block bookkeeping
 	outSt    map[*ssa.BasicBlock]*State
 	edgeCond map[[2]int]*smt.Term
@@ -253,7 +259,15 @@ func (ex *Exec) oblige(kind, anchor string, guard, goal *smt.Term, pos token.Pos
 	if pos.IsValid() {
 		p = ex.Prog.Fset.Position(pos)
 	}
-	ex.Obls = append(ex.Obls, &Obligation{Name: name, Kind: kind, Guard: guard, Goal: goal, NAssume: len(ex.assumes), Pos: p})
+	o := &Obligation{Name: name, Kind: kind, Guard: guard, Goal: goal, NAssume: len(ex.assumes), Pos: p}
+	if ex.tailMode {
+		if _, seen := ex.tailParts[name]; !seen {
+			ex.tailOrder = append(ex.tailOrder, name)
+		}
+		ex.tailParts[name] = append(ex.tailParts[name], o)
+		return
+	}
+	ex.Obls = append(ex.Obls, o)
 }
 
 func (ex *Exec) fnName() string { return ex.Prog.FuncKey(ex.Fn) }
@@ -391,6 +405,10 @@ func (ex *Exec) mkSlice(arr, off, ln, cp *smt.Term) *smt.Term {
 func (ex *Exec) strLen(s *smt.Term) *smt.Term {
 	c := ex.W.C
 	l := c.App("str_len", smt.Int, s)
+	if !c.HasVar(l) {
+		// every string has a length in [0, 2^56) (the address space)
+		ex.assume(c.And(c.Le(c.IntLit(0), l), c.Lt(l, c.BigLit(pow2(56)))))
+	}
 	return l
 }
 
@@ -687,13 +705,24 @@ func findLoops(fn *ssa.Function) map[*ssa.BasicBlock]*loopInfo {
 	for h := range loops {
 		hs = append(hs, h)
 	}
-	sort.Slice(hs, func(i, j int) bool {
-		pi, pj := loopPos(hs[i]), loopPos(hs[j])
-		if pi != pj {
-			return pi < pj
+	// go/ssa creates the blocks of a loop statement when it reaches the statement, so the header's block index
+	// follows the source order of the loop statements (outer before inner); instruction positions do not (a
+	// range loop's header instructions carry positions of the range expression or of phi variables)
+	sort.Slice(hs, func(i, j int) bool { return hs[i].Index < hs[j].Index })
+	if os.Getenv("GOVC_DEBUG_LOOPS") != "" && len(hs) > 1 {
+		for i := 1; i < len(hs); i++ {
+			if hs[i-1].Index > hs[i].Index {
+				fmt.Fprintf(os.Stderr, "LOOP-ORDER %s: position order %v differs from block order\n", fn.String(), func() []int {
+					var o []int
+					for _, h := range hs {
+						o = append(o, h.Index)
+					}
+					return o
+				}())
+				break
+			}
 		}
-		return hs[i].Index < hs[j].Index
-	})
+	}
 	for i, h := range hs {
 		loops[h].ordinal = i + 1
 	}
@@ -704,6 +733,12 @@ func loopPos(h *ssa.BasicBlock) token.Pos {
 	// position of the first instruction with a valid position in the loop header or body
 	best := token.NoPos
 	for _, in := range h.Instrs {
+		if _, isPhi := in.(*ssa.Phi); isPhi {
+			continue // a phi carries the position of its variable's declaration, not of the loop
+		}
+		if _, isDbg := in.(*ssa.DebugRef); isDbg {
+			continue
+		}
 		if p := in.Pos(); p.IsValid() && (best == token.NoPos || p < best) {
 			best = p
 		}
@@ -789,31 +824,39 @@ func (ex *Exec) runFrame(fr *Frame, args []Val, st0 *State, reach0 *smt.Term) ([
 	ex.bindFreeVars(fr, st0)
 	var rets []retInfo
 	order := rpo(fn)
-	for _, b := range order {
+	type incoming struct {
+		conds []*smt.Term
+		sts   []*State
+		preds []*ssa.BasicBlock
+	}
+	forward := func(b *ssa.BasicBlock) incoming {
+		var in incoming
+		for _, p := range b.Preds {
+			if b.Dominates(p) {
+				continue // back edge
+			}
+			ec, ok := fr.edgeCond[[2]int{p.Index, b.Index}]
+			if !ok || ec.IsFalse() {
+				continue
+			}
+			in.conds = append(in.conds, ec)
+			in.sts = append(in.sts, fr.outSt[p])
+			in.preds = append(in.preds, p)
+		}
+		return in
+	}
+	// process executes one block; `in` is what flows into it (nil for the entry block)
+	process := func(b *ssa.BasicBlock, in *incoming) {
 		fr.curBlock = b
 		var st *State
 		var reach *smt.Term
 		if b.Index == 0 {
 			st, reach = st0, reach0
 		} else {
-			var conds []*smt.Term
-			var sts []*State
-			var preds []*ssa.BasicBlock
-			for _, p := range b.Preds {
-				if b.Dominates(p) {
-					continue // back edge
-				}
-				ec, ok := fr.edgeCond[[2]int{p.Index, b.Index}]
-				if !ok || ec.IsFalse() {
-					continue
-				}
-				conds = append(conds, ec)
-				sts = append(sts, fr.outSt[p])
-				preds = append(preds, p)
-			}
+			conds, sts, preds := in.conds, in.sts, in.preds
 			if len(conds) == 0 {
 				fr.inReach[b] = c.False()
-				continue
+				return
 			}
 			reach = c.Or(conds...)
 			st = ex.mergeStates(conds, sts)
@@ -866,6 +909,48 @@ func (ex *Exec) runFrame(fr *Frame, args []Val, st0 *State, reach0 *smt.Term) ([
 		}
 		fr.outSt[b] = st
 	}
+	done := map[*ssa.BasicBlock]bool{}
+	for _, b := range order {
+		if done[b] {
+			continue
+		}
+		if b.Index == 0 {
+			process(b, nil)
+			continue
+		}
+		in := forward(b)
+		if tail := ex.dupTail(fr, b, len(in.conds), order); tail != nil {
+			// a join of many paths followed by a short loop-free run to the returns (the end of a large switch):
+			// that run is executed once per incoming path instead of once on the merged state, so that each
+			// path keeps its own simple values; same-named obligations of the copies become parts of one
+			ex.beginTail()
+			for i := range in.conds {
+				ex.nextTailCopy()
+				for _, t := range tail {
+					delete(fr.outSt, t)
+					delete(fr.inReach, t)
+					for _, s := range t.Succs {
+						delete(fr.edgeCond, [2]int{t.Index, s.Index})
+					}
+				}
+				for _, t := range tail {
+					if t == b {
+						one := incoming{conds: in.conds[i : i+1], sts: in.sts[i : i+1], preds: in.preds[i : i+1]}
+						process(t, &one)
+					} else {
+						tin := forward(t)
+						process(t, &tin)
+					}
+				}
+			}
+			ex.endTail()
+			for _, t := range tail {
+				done[t] = true
+			}
+			continue
+		}
+		process(b, &in)
+	}
 	fr.rets = rets
 	if len(rets) == 0 {
 		return nil, nil, c.False()
@@ -891,6 +976,101 @@ func (ex *Exec) runFrame(fr *Frame, args []Val, st0 *State, reach0 *smt.Term) ([
 		merged[i] = acc
 	}
 	return merged, out, c.Or(conds...)
+}
+
+// dupTail decides whether the blocks reachable from join b are executed once per incoming path: at least four
+// incoming paths, every reachable block dominated by b and outside all loops, at most 40 instructions in all and
+// none of them a call, conversion or allocation.
+// It returns those blocks in execution order.
+func (ex *Exec) dupTail(fr *Frame, b *ssa.BasicBlock, npreds int, order []*ssa.BasicBlock) []*ssa.BasicBlock {
+	if !fr.top || npreds < 4 || fr.loops[b] != nil || ex.tailMode {
+		return nil
+	}
+	in := map[*ssa.BasicBlock]bool{}
+	var walk func(t *ssa.BasicBlock) bool
+	n := 0
+	walk = func(t *ssa.BasicBlock) bool {
+		if in[t] {
+			return true
+		}
+		if !b.Dominates(t) || fr.loops[t] != nil {
+			return false
+		}
+		for _, li := range fr.loops {
+			if li.blocks[t] {
+				return false
+			}
+		}
+		in[t] = true
+		for _, x := range t.Instrs {
+			if _, dbg := x.(*ssa.DebugRef); !dbg {
+				n++
+			}
+		}
+		if n > 40 {
+			return false
+		}
+		for _, x := range t.Instrs {
+			switch x.(type) {
+			case ssa.CallInstruction, *ssa.Convert, *ssa.MakeSlice, *ssa.Alloc, *ssa.MakeInterface, *ssa.MakeClosure, *ssa.MakeMap, *ssa.Slice, *ssa.TypeAssert:
+				// (each copy would add its own facts about fresh values to every later query)
+				if cl, isCall := x.(*ssa.Call); isCall {
+					if bi, ok := cl.Call.Value.(*ssa.Builtin); ok && (bi.Name() == "len" || bi.Name() == "cap") {
+						continue
+					}
+				}
+				return false
+			}
+		}
+		for _, s := range t.Succs {
+			if !walk(s) {
+				return false
+			}
+		}
+		return true
+	}
+	if !walk(b) {
+		return nil
+	}
+	var out []*ssa.BasicBlock
+	for _, t := range order {
+		if in[t] {
+			out = append(out, t)
+		}
+	}
+	return out
+}
+
+func (ex *Exec) beginTail() {
+	ex.tailMode = true
+	ex.tailCtr = map[string]int{}
+	for k, v := range ex.siteCtr {
+		ex.tailCtr[k] = v
+	}
+	ex.tailParts = map[string][]*Obligation{}
+	ex.tailOrder = nil
+	ex.noCover++
+}
+
+func (ex *Exec) nextTailCopy() {
+	ex.siteCtr = map[string]int{}
+	for k, v := range ex.tailCtr {
+		ex.siteCtr[k] = v
+	}
+}
+
+func (ex *Exec) endTail() {
+	ex.tailMode = false
+	ex.noCover--
+	for _, name := range ex.tailOrder {
+		parts := ex.tailParts[name]
+		if len(parts) == 1 {
+			ex.Obls = append(ex.Obls, parts[0])
+			continue
+		}
+		ex.Obls = append(ex.Obls, &Obligation{Name: name, Kind: parts[0].Kind, Guard: ex.W.C.True(), Goal: ex.W.C.True(), NAssume: parts[len(parts)-1].NAssume, Pos: parts[0].Pos, Parts: parts})
+	}
+	ex.tailParts, ex.tailOrder = nil, nil
 }
 
 // exitAsserts checks "exit assert" clauses (over locals) at one return site.
@@ -941,6 +1121,10 @@ func (ex *Exec) returnOrdinal(fn *ssa.Function, ret *ssa.Return) int {
 		}
 	}
 	sort.SliceStable(rs, func(i, j int) bool {
+		// (the implicit return at the end of a body has no position: it sorts last)
+		if rs[i].Pos().IsValid() != rs[j].Pos().IsValid() {
+			return rs[i].Pos().IsValid()
+		}
 		pi, pj := ex.Prog.Fset.Position(rs[i].Pos()), ex.Prog.Fset.Position(rs[j].Pos())
 		if pi.Line != pj.Line {
 			return pi.Line < pj.Line
@@ -996,6 +1180,51 @@ func (ex *Exec) splitByGuard(guard, goal *smt.Term) [][2]*smt.Term {
 		}
 		out = append(out, [2]*smt.Term{d, c.Subst(goal, m)})
 	}
+	return out
+}
+
+// splitByIte: the goal mentions a value merged from many paths (a chain ite(c1, A, ite(c2, B, ...)) of four or more
+// links, as produced at the join after a large switch). It is then proved once under each ci and once under
+// "none of them" -- an exhaustive case split, sound whether or not the ci exclude each other.
+func (ex *Exec) splitByIte(guard, goal *smt.Term) [][2]*smt.Term {
+	c := ex.W.C
+	var best []*smt.Term
+	seen := map[int]bool{}
+	var walk func(t *smt.Term)
+	walk = func(t *smt.Term) {
+		if seen[t.ID] {
+			return
+		}
+		seen[t.ID] = true
+		if t.Kind == smt.KApp && t.Op == "ite" && len(t.Args) == 3 {
+			var conds []*smt.Term
+			for u := t; u.Kind == smt.KApp && u.Op == "ite" && len(u.Args) == 3; u = u.Args[2] {
+				if c.HasVar(u.Args[0]) {
+					break
+				}
+				conds = append(conds, u.Args[0])
+			}
+			if len(conds) > len(best) {
+				best = conds
+			}
+		}
+		for _, a := range t.Args {
+			walk(a)
+		}
+	}
+	walk(goal)
+	if len(best) < 4 || len(best) > 64 {
+		return nil
+	}
+	var out [][2]*smt.Term
+	none := map[*smt.Term]*smt.Term{}
+	var negs []*smt.Term
+	for _, ci := range best {
+		out = append(out, [2]*smt.Term{c.And(guard, ci), c.Subst(goal, map[*smt.Term]*smt.Term{ci: c.True()})})
+		none[ci] = c.False()
+		negs = append(negs, c.Not(ci))
+	}
+	out = append(out, [2]*smt.Term{c.And(append([]*smt.Term{guard}, negs...)...), c.Subst(goal, none)})
 	return out
 }
 
@@ -1218,11 +1447,14 @@ func (ex *Exec) enterLoop(fr *Frame, li *loopInfo, h *ssa.BasicBlock, st *State,
 			if li.keepOld && hk.Sort.IsArray() && (k[0] == 'E' || k[0] == 'P' || k[0] == 'F') {
 				// declared: only objects allocated inside the loop are written in this component; assumed at the
 				// head, re-proved at every back edge
+				// (old = existing when the function was entered: objects the function itself allocated before the
+				// loop, such as a slice it is appending to, are the business of the loop's invariants)
 				pre := ex.heapGet(st, hk)
 				ex.havocKey(st, hk)
+				lim := ex.entrySt.brk
 				p := c.Var("p!k", smt.Int)
-				ex.assume(c.Quant("forall", []*smt.Term{p}, c.Implies(c.And(c.Le(c.IntLit(0), p), c.Lt(p, st.brk)), c.Eq(c.Select(st.heap[k], p), c.Select(pre, p)))))
-				li.kept = append(li.kept, keptHeap{key: hk, pre: pre, brk: st.brk})
+				ex.assume(c.Quant("forall", []*smt.Term{p}, c.Implies(c.And(c.Le(c.IntLit(0), p), c.Lt(p, lim)), c.Eq(c.Select(st.heap[k], p), c.Select(pre, p)))))
+				li.kept = append(li.kept, keptHeap{key: hk, pre: pre, brk: lim})
 				continue
 			}
 			ex.havocKey(st, hk)
